@@ -13,8 +13,9 @@ let c17_semaseq args impl =
         if !bad = "" then begin
           let o = if i < Array.length outs then outs.(i) else "missing" in
           match op with
-          | 'a' | 'c' ->
-            let enabled = acquire_enabled !st (op = 'c') in
+          | 'a' | 'c' | 'k' ->
+            (* 'k': a context cancelled with a custom cause: done like 'c'; its error is context.Canceled *)
+            let enabled = acquire_enabled !st (op = 'c' || op = 'k') in
             (* a timeout context is not done when the select starts: if the send is ready it is taken;
                otherwise the deadline fires *)
             let admissible =
